@@ -77,13 +77,17 @@ Proof. exact StreamIdProofs.open_ok12. Qed.
 Theorem C12_st_judge_run : forall case, StreamId.judge12 case (StreamId.run case) = true.
 Proof. exact StreamIdProofs.judge12_run. Qed.
 
-(* close_only_close: the close sender only ever writes its stored close packet, and the number of
-   copies written never exceeds 1 + the number of datagrams received (all histories) *)
+(* close_only_close: the close sender only ever writes its stored close packet, and every copy after
+   the first is written in response to a datagram received since the previous copy (all histories; the
+   driver offers an opportunity to send after every event, as the connection's event loop does) *)
 Theorem C12_cs_judge_run : forall case, CloseSender.judge case (CloseSender.run case) = true.
 Proof. exact CloseSenderProofs.judge_run. Qed.
 
-Theorem C12_close_rate_limited : forall s sent recv, CloseSenderProofs.Inv s sent recv -> sent <= 1 + recv.
-Proof. exact CloseSenderProofs.close_rate_limited. Qed.
+(* a copy is accepted only if it is the first one or a datagram was received since the previous copy *)
+Theorem C12_close_copy_in_response : forall sent fresh s' f',
+  CloseSender.copy_ok sent fresh 1%Z = Some (s', f') ->
+  (sent = false \/ fresh = true) /\ s' = true /\ f' = false.
+Proof. exact CloseSenderProofs.copy_in_response. Qed.
 
 Theorem C12_stream_id_step_is_4 : Gen_C12.stream_id_step = 4.
 Proof. reflexivity. Qed.
@@ -108,6 +112,6 @@ Print Assumptions C12_no_blocked_after_reset.
 Print Assumptions C12_ids_increase_no_reuse.
 Print Assumptions C12_st_judge_run.
 Print Assumptions C12_cs_judge_run.
-Print Assumptions C12_close_rate_limited.
+Print Assumptions C12_close_copy_in_response.
 Print Assumptions C12_stream_id_step_is_4.
 Print Assumptions C12_min_write_size_is_32.
